@@ -408,7 +408,21 @@ func (req *SrvReq) Respond() {
 		return
 	}
 
-	/* remove the request and all requests flushing it */
+	if rop, ok := (req.Conn.Srv.ops).(SrvReqProcessOps); ok {
+		rop.SrvReqRespond(req)
+	} else {
+		req.PostProcess()
+	}
+
+	verifPoint("respond.posted", req)
+	if (status & reqFlush) == 0 {
+		conn.reqout <- req
+	}
+
+	verifPoint("respond.queued", req)
+	/* remove the request and all requests flushing it, now that its reply
+	   is queued: a Tflush that still finds it is answered after the reply,
+	   and a request reusing the tag starts after it */
 	conn.Lock()
 	nextreq := req.prev
 	if nextreq != nil {
@@ -435,18 +449,6 @@ func (req *SrvReq) Respond() {
 	conn.Unlock()
 
 	verifPoint("respond.unlinked", req)
-	if rop, ok := (req.Conn.Srv.ops).(SrvReqProcessOps); ok {
-		rop.SrvReqRespond(req)
-	} else {
-		req.PostProcess()
-	}
-
-	verifPoint("respond.posted", req)
-	if (status & reqFlush) == 0 {
-		conn.reqout <- req
-	}
-
-	verifPoint("respond.queued", req)
 	// process the next request with the same tag (if available)
 	if nextreq != nil {
 		go nextreq.process()
